@@ -118,6 +118,29 @@ Theorem resume_exact_prox_dca :
 Proof. exact prox_dca_resume. Qed.
 Print Assumptions resume_exact_prox_dca.
 
+(* accelerated pdhg (gamma_primal / gamma_dual): resumption is exact when, besides x_relax and y, the
+   step sizes reached by the first call are passed to the second one: (tau, sigma, x, x_relax, y) is
+   the whole state (theta is recomputed before its use).  acc is the scalar update of one iteration. *)
+Theorem resume_exact_pdhg_accelerated :
+  forall (L Ladj : list R -> list R) (proxp proxd : R -> list R -> list R) (acc : R * R -> R * (R * R))
+         (n m : nat) (ts : R * R) (st : pdhg_st),
+  pdhg_acc_iter L Ladj proxp proxd acc (n + m) ts st
+  = let '(ts1, st1) := pdhg_acc_iter L Ladj proxp proxd acc n ts st in
+    pdhg_acc_iter L Ladj proxp proxd acc m ts1 st1.
+Proof. exact pdhg_acc_resume. Qed.
+Print Assumptions resume_exact_pdhg_accelerated.
+(* ... and this recursive form is the counter-indexed model of gen_pdhg_accelerated_is_model *)
+Theorem pdhg_accelerated_forms_agree :
+  forall (L Ladj : list R -> list R) (proxp proxd : R -> list R -> list R) (acc : R * R -> R * (R * R))
+         (n k0 : nat) (ts0 ts : R * R) (st : pdhg_st),
+  ts = acc_steps acc k0 ts0 ->
+  pdhg_acc_iter L Ladj proxp proxd acc n ts st
+  = (acc_steps acc (k0 + n) ts0,
+     iterk n k0 (fun k => let tk := acc_steps acc k ts0 in
+                          pdhg_step L Ladj (proxp (fst tk)) (proxd (snd tk)) (fst tk) (snd tk) (fst (acc tk))) st).
+Proof. exact (fun L Ladj proxp proxd acc n => pdhg_acc_iter_iterk L Ladj proxp proxd acc n). Qed.
+Print Assumptions pdhg_accelerated_forms_agree.
+
 (* steepest descent with ConstantLineSearch, tolerance test and projection: the
    second call starts with a fresh "not returned yet" flag and still ends at
    the same iterate (an early return is a fixed point). *)
